@@ -735,6 +735,7 @@ func c19(o Opts) error {
 	if err := formats(res, work); err != nil {
 		return err
 	}
+	channelProtocol(res, NewRng(o.Seed+77), map[string]int{"quick": 300, "thorough": 5000}[o.Tier])
 	if err := multiChannel(res, work); err != nil {
 		return err
 	}
